@@ -547,7 +547,7 @@ def selection_traces(R, tier, part="all"):
     # lexicase
     lpops = [[[0, 0], [0, 0], [0, 1]], [[1, 2], [2, 1]], [[1, 1], [1, 2], [2, 1]], [[2, 2], [2, 2]], [[1, 2, 3], [3, 2, 1], [2, 2, 2]],
              # spreads that change as winners leave the pool (the epsilon band has to follow the remaining candidates)
-             [[0, 0], [4, 4], [10, 10], [9, 9]], [[0, 3], [6, 1], [10, 10], [9, 9]]]
+             [[0, 0], [4, 4], [10, 10], [9, 9]], [[0, 3], [6, 1], [10, 10], [9, 9]], [[1, 2], [1, 2], [2, 1]]]
     if not quick:
         lpops += [[[0, 1], [1, 0], [1, 1], [0, 0]], [[1, 2, 1], [2, 1, 1], [1, 1, 2], [2, 2, 2]]]
     for pi, vecs in enumerate(lpops):
@@ -562,7 +562,9 @@ def selection_traces(R, tier, part="all"):
                         rs = NativeRandomSource(1)
                         g = search_grammar()
                         rep = TreeBasedRepresentation(g, MaxDepthDecider(rs, g, 2))
-                        inds = [Individual(SLeaf(i), rep) for i in range(len(vecs))]
+                        # (population 7 holds TWINS: distinct individuals with equal genotypes, hence equal fitness)
+                        twins = vecs == [[1, 2], [1, 2], [2, 1]]
+                        inds = [Individual(SLeaf(0 if (twins and i == 1) else i), rep) for i in range(len(vecs))]
                         problem = MultiObjectiveProblem(list(mini), lambda p: [float(x) for x in vecs[p.v]])
                         ev_ = SequentialEvaluator()
                         events, ids = [], Ids()
